@@ -213,7 +213,7 @@ class SetMembersMixin:
                                 with suppress(ValueError):
                                     value = merge_stubs(member, value)  # type: ignore[arg-type]
                     for alias in member.aliases.values():
-                        with suppress(CyclicAliasError):
+                        with suppress(AliasResolutionError, CyclicAliasError):
                             alias.target = value
             self.members[name] = value  # type: ignore[attr-defined]
             if self.is_collection:  # type: ignore[attr-defined]
